@@ -11,7 +11,7 @@
  *   CX <k> <t>         __cyg_profile_func_exit(f<k>) at time t               -> "CX"
  *   EA <k> <t> <rdi> <rsi> <rdx> <rcx> <r8> <r9> [stack words...]
  *                      -pg entry with a synthetic register frame; a word "@S<i>" is the address
- *                      of string <i>, "@BAD" an unmapped address, "@F<k>" the address of f<k>                -> like E
+ *                      of string <i>, "@BAD" an unmapped address, "@BRK" an unmapped address 8 MiB behind the heap, "@EDGE" the inaccessible page behind a readable one, "@F<k>" the address of f<k>                -> like E
  *   XR <t> <rax> [<rdx>]   exit with return value                              -> like X
  *   STR <i> <hex>      define string i (NUL appended)
  *   STATE              filter state of the current thread -> "S in out depth max time size idx ridx enabled"
@@ -22,7 +22,7 @@
  *   VAL <name> <v>     set an interposed value source (pagefault, cpu, statm, var)
  *   ARGFILL <d> <byte> <n> / ARGDUMP <d> <n>   (C09) fill / hex-dump the per-frame argument buffer of
  *                      frame mtd.idx+d (n bytes, may span the following frames' buffers)
- *   ADDR               (C09) -> "ADDR <address of f0> <the @BAD address>"
+ *   ADDR               (C09) -> "ADDR <address of f0> <the @BAD address> <the @BRK address>"
  *   XRF <t> <rax> <rdx> <x>  (C09) like XR, xmm0 (low 64 bits) := x right before mcount_exit
  *   SPECS <k>          (C09) the merged argument spec list libmcount holds for f<k>
  *   FRAMESET <d> <i> <w>  (C09) word i of the fake stack frame of call depth d := w
@@ -34,7 +34,8 @@
  *   PSTATE             ring of the current thread -> "P nr_buf curr losts done [flag size]..."
  *   BASE               address of f0 -> "BASE <addr>";   TID -> "TID <tid of the current thread>"
  *   VALX <name> <v>    (C17) unsigned 64-bit knobs: statm_on statm0 statm1 statm2 (pages, faked /proc/self/statm),
- *                      pmu_on cycle0 cycle1 cache0 cache1 branch0 branch1 (faked perf_event_open group reads)
+ *                      pmu_on cycle0 cycle1 cache0 cache1 branch0 branch1 (faked perf_event_open group reads),
+ *                      var8 var16 var32 (watched globals verif_watched_u8 / _u16 / _u32)
  *   AUTOSTATE 2        like AUTOSTATE 1 plus an "XS nr_events watch_inited watch_cpu" line after every hook
  *   QUIT
  *
@@ -72,6 +73,10 @@ static volatile int fake_on;
 volatile long verif_pagefault_min, verif_pagefault_maj;
 volatile int verif_cpu;
 volatile long verif_watched_var;
+/* C17: watched globals of 1, 2 and 4 bytes (-W var:verif_watched_u8 ...), set with VALX var8 / var16 / var32 */
+volatile unsigned char verif_watched_u8;
+volatile unsigned short verif_watched_u16;
+volatile unsigned int verif_watched_u32;
 
 int clock_gettime(clockid_t id, struct timespec *ts)
 {
@@ -227,13 +232,39 @@ static int gettid_(void)
 	return syscall(SYS_gettid);
 }
 
+static unsigned long edge_addr; /* C09: end of a readable page = start of an inaccessible one */
+static unsigned long brk_gap; /* C09: end of the heap at start-up + 8 MiB (the heap of the driver stays far below) */
+
+/* C09: lowest mapped address of the [stack] mapping minus 64 KiB (inside the guard gap: not mapped) */
+static unsigned long stack_low_unmapped(void)
+{
+	FILE *fp = fopen("/proc/self/maps", "r");
+	char buf[512];
+	unsigned long lo = 0;
+	while (fp && fgets(buf, sizeof buf, fp))
+		if (strstr(buf, "[stack]"))
+			lo = strtoul(buf, NULL, 16);
+	if (fp)
+		fclose(fp);
+	return lo ? lo - 65536 : 0;
+}
+
 static unsigned long parse_word(const char *w)
 {
 	if (w[0] == '@') {
 		if (!strcmp(w, "@BAD"))
 			return (unsigned long)bad_page + 16;
-		if (w[1] == 'S')
-			return (unsigned long)strings[atoi(w + 2)];
+		if (!strncmp(w, "@EDGE", 5)) /* C09: first byte of a PROT_NONE page right behind a readable page of 4095 'E's
+					      * and a NUL; "@EDGE-<k>": k bytes in front of it */
+			return edge_addr - (w[5] == '-' ? strtoul(w + 6, NULL, 0) : 0);
+		if (!strcmp(w, "@BRK")) /* C09: an unmapped address shortly behind the end of the heap */
+			return brk_gap;
+		if (!strcmp(w, "@STK")) /* C09: an unmapped address shortly below the mapped stack */
+			return stack_low_unmapped();
+		if (w[1] == 'S') { /* "@S<i>" or (C09) "@S<i>+<offset>" */
+			const char *plus = strchr(w, '+');
+			return (unsigned long)strings[atoi(w + 2)] + (plus ? strtoul(plus + 1, NULL, 0) : 0);
+		}
 		if (w[1] == 'F') /* C09: start address of f<k> */
 			return (unsigned long)funcs[atoi(w + 2) % NFUNC];
 	}
@@ -415,6 +446,15 @@ static void do_op(struct drv *dv, char *line)
 				print_state();
 			return;
 		}
+		if (dv->sp > 0 && (dv->frames[dv->sp - 1][0] & ~0xffffUL) == 0xdead0000UL) {
+			/* libmcount put the original return address back into the slot (thread finished:
+			 * mtd_dtor -> mcount_rstack_restore): the function returns to its caller, no exit hook */
+			dv->sp--;
+			printf("X - 1\n");
+			if (autostate)
+				print_state();
+			return;
+		}
 		errno = 55;
 		if (have_xmm0)
 			asm volatile("movq %0, %%xmm0" ::"r"(xmm0v) : "xmm0");
@@ -546,7 +586,7 @@ static void do_op(struct drv *dv, char *line)
 	}
 	else if (!strcmp(op, "ADDR")) {
 		/* C09: addresses the driver needs to build a synthetic data directory / the model's inputs */
-		printf("ADDR %lu %lu\n", (unsigned long)f0, (unsigned long)bad_page + 16);
+		printf("ADDR %lu %lu %lu %lu\n", (unsigned long)f0, (unsigned long)bad_page + 16, brk_gap, edge_addr);
 	}
 	else if (!strcmp(op, "DUMPRAW")) {
 		/* C09: the exact byte stream this thread has written (all its shm buffers, in order) */
@@ -585,6 +625,12 @@ static void do_op(struct drv *dv, char *line)
 			verif_statm_on = v;
 		else if (!strcmp(nm, "pmu_on"))
 			verif_pmu_on = v;
+		else if (!strcmp(nm, "var8"))
+			verif_watched_u8 = v;
+		else if (!strcmp(nm, "var16"))
+			verif_watched_u16 = v;
+		else if (!strcmp(nm, "var32"))
+			verif_watched_u32 = v;
 		else if (!strncmp(nm, "statm", 5) && nm[5] >= '0' && nm[5] <= '2')
 			verif_statm[nm[5] - '0'] = v;
 		else
@@ -668,6 +714,14 @@ int main(void)
 
 	setvbuf(stdout, NULL, _IOFBF, 1 << 16);
 	bad_page = mmap(NULL, 4096, PROT_NONE, MAP_PRIVATE | MAP_ANONYMOUS, -1, 0);
+	brk_gap = (unsigned long)sbrk(0) + (8UL << 20) + 24;
+	{
+		char *two = mmap(NULL, 8192, PROT_READ | PROT_WRITE, MAP_PRIVATE | MAP_ANONYMOUS, -1, 0);
+		memset(two, 'E', 4095);
+		two[4095] = 0;
+		mprotect(two + 4096, 4096, PROT_NONE);
+		edge_addr = (unsigned long)two + 4096;
+	}
 	fake_on = 1;
 	ensure_thread(0);
 	while (fgets(line, sizeof line, stdin)) {
